@@ -25,14 +25,16 @@ CLAIMS = {
    text="Coq theorems over ASModel (all states, all scheduler choices incl. spurious failure): the exchange step of compare_and_swap "
         "writes iff the stored pointer equals current at that step and then stores exactly new; it is reached only when the loaded pointer "
         "equals current, otherwise the loaded guard is returned and new loses exactly one reference; success returns a guard on current. " + TIE,
-   note=NOTE + "A-B-A: C05_no_aba (ASModel/Alive.v, all schedules within Main.RunOK) - while the exchange frame exists the compared value is the guarded one, it is alive and the "
+   note=NOTE + "Run level (ASModel/LinCas*.v, all schedules within Main.RunOK): C05_cas_linearizable - a completed compare_and_swap(current=a, new=b) returns p; if p<>a no step of the call "
+        "wrote the container and p was its content in a state between call and return; if p=a exactly one step of the call wrote it and replaced exactly a by b. A-B-A: C05_no_aba (ASModel/Alive.v, all schedules within Main.RunOK) - while the exchange frame exists the compared value is the guarded one, it is alive and the "
         "object at that address stays the same object across every step of any thread; the forms of `current` are compared by the sequential differential run (C14).",
    technique="Rocq/Coq proof (step lemmas on the model) + trace correspondence"),
  "C06": dict(engine="ASModel",
    text="Coq theorems over ASModel: every rcu attempt exchanges against exactly the pointer whose guard was passed to the closure, a "
         "failed attempt continues with the reported value, a successful one returns the replaced value; with C05/C04 the installed value "
         "sits directly on top of the value read. " + TIE,
-   note=NOTE + "C06_guard_keeps_identity: the guard rcu holds keeps the closure's input alive and identical across every step (all schedules within Main.RunOK). The counting "
+   note=NOTE + "Run level (ASModel/LinCasRcu.v, all schedules within Main.RunOK): C06_rcu_linearizable - a completed rcu returns the previous value q, exactly one step of the call wrote the "
+        "container, replacing exactly q by what the closure made from q in that attempt; failed attempts wrote nothing. C06_guard_keeps_identity: the guard rcu holds keeps the closure's input alive and identical across every step (all schedules within Main.RunOK). The counting "
         "corollary (k increments add k) is checked by the correspondence oracle.",
    technique="Rocq/Coq proof (step lemmas on the model) + trace correspondence"),
  "C08": dict(engine="ASModel",
